@@ -19,13 +19,20 @@ EXPENSIVE = ["1e999999999", "1e-2147483648", "2^2^2^2^2^2", "1 << 2000000000"]
 EXTRA = [".5", "1.", "0o7", "0b1", "2", "s", "in", "and", "or", "xor", "°F", "**", ":", ">>",
          "\"b c\"", "\\u41", "\\uD800", "\\uFFFFFFFFF", "\\x", "//c", "/*", "/**/", "#", "#2000-01-01 00:00:00.1234567890#", "int",
          "frac", "sci", "eng", "99", "0", "-99:00", "UTC", "H2O", "H99999999999", "speed", "light", "€", "ln", "asin", "exp",
-         "1000", "1|0", "99999999999999999999", "mass", "molar_mass", "gold", "of (", "#1 jan 2000#", "°", "\\"]
+         "1000", "1|0", "99999999999999999999", "mass", "molar_mass", "gold", "of (", "#1 jan 2000#", "°", "\\",
+         "\"\"", "\"", "''", "1e17", "1e-30", "years", "ns", "1/3"]
 VALID = ["1 + 2 * 3", "3 ft + 2 m -> cm", "12 degC -> degF", "90061.5 s -> hour;min;s", "#2016-07-04# + 3 days", "now - #2000-01-01#",
          "speed of light -> km/s", "molar_mass of water", "1 kg water -> liter", "sqrt(4 m^2)", "hypot(3 m, 4 m)", "2^64 -> hex",
          "1|3 -> digits 40", "1e-9 -> eng", "355|113 -> frac", "units for energy", "factorize velocity", "search foot", "foot",
          "0xFF and 0b1010 xor 3", "-5 mod 3", "1 << 10", "1 -> 1 << 2", "5 m -> 3 ft >> 1", "7 -> 2 mod 3", "7 -> 3 and 1", "x = 3 m", "10 km -> mile;yard;ft", "65 mph -> km/hour", "pi ** 2",
          "ln 2", "exp 1", "asin 1", "#2016-07-04 12:00# -> \"US/Pacific\"", "#2016-07-04# -> +05:30", "ans + 1", "7 -> base 2",
-         "1 H2O -> g", "100 percent", "3 m * -2", "a / (b / c)", "1 USD", "grain", "3 hours + 5 min"]
+         "1 H2O -> g", "100 percent", "3 m * -2", "a / (b / c)", "1 USD", "grain", "3 hours + 5 min",
+         "2^ln 2", "1 << exp 1", "now + ln 2 s", "asin 0.5 -> deg", "m^(1|2)", "8^(1|3)", "2^0.5", "sqrt(2) mod 3", "hypot(3, 4) -> digits 5",
+         "#2016-07-04# - 5 years", "#2016-07-04# + 3 s -> \"UTC\"", "now + 1 hour -> +01:00", "1 kg -> digits 3", "7 mod 2.5", "3 << 2.0",
+         "12 -> base 7", "1|7 -> digits 30 base 3", "water * 2", "density of water * 2 liter"]
+MAGS = (["1e%d" % k for k in range(-30, 31)] + ["-1", "-1e30", "-1e-30", "0", "2147483647", "2147483648", "4294967295", "4294967296",
+        "9223372036854775807", "9223372036854775808", "18446744073709551615", "18446744073709551616", "1|2147483648",
+        "1|4294967296", "1|99999999999999999999", "0.1", "1.5", "2|3", "1e-5000", "1e400"])
 
 
 def mutate(rng, q):
@@ -140,6 +147,21 @@ def run(tier, seed):
     muts += VALID
     decide(run, muts, "mutation", shards, tmo)
     run.sample({"leg": "mutation", "input": muts[0]})
+    # magnitude sweep: every numeric literal of every valid query replaced by every boundary magnitude
+    import re
+    sweep = []
+    for q in VALID:
+        for m in re.finditer(r"(?<![#\w:.\-+|])\d+(\.\d+)?(?![\w:#|.])", q):
+            if "#" in q[:m.start()] and q[:m.start()].count("#") % 2 == 1:
+                continue        # inside a date literal
+            for mag in MAGS:
+                sweep.append(q[:m.start()] + "(" + mag + ")" + q[m.end():] if mag.startswith("-") or "|" in mag else q[:m.start()] + mag + q[m.end():])
+    sweep = list(dict.fromkeys(sweep))
+    if not thorough:
+        rng.shuffle(sweep)
+        sweep = sweep[:2500]
+    decide(run, sweep, "magnitude", shards, tmo)
+    run.sample({"leg": "magnitude", "input": sweep[0]})
     uni = [rand_unicode(rng) for _ in range(20000 if thorough else 2000)]
     decide(run, uni, "unicode", shards, tmo)
     run.sample({"leg": "unicode", "input": uni[0]})
